@@ -278,16 +278,22 @@ def budget(ctx):
         # guard: `if pdu_space_available < X: break` before the append in the same loop body,
         # or the truncation idiom value[: pdu_space_available - c] with `if pdu_space_available < c: break`
         guards = []
+        from ..sym import cmp_sides
         for t, pol in paths.flat_guards(app, stop=loop):
-            tn = norm(_resolve(t, defs))
+            rt = _resolve(t, defs)
+            tn = norm(rt)
             if 'pdu_space_available' in tn:
-                guards.append((tn, pol))
+                guards.append((tn, pol, cmp_sides(rt)))
         ok = False
         why = ''
-        for tn, pol in guards:
-            m1 = re.match(r'^pdu_space_available < (.+)$', tn)
-            m2 = re.match(r'^pdu_space_available >= (.+)$', tn)
-            g = m1.group(1) if (m1 and not pol) else m2.group(1) if (m2 and pol) else None
+        for tn, pol, sides in guards:
+            g = None
+            if sides is not None:
+                small, op, big = sides
+                if small == 'pdu_space_available' and op == '<' and not pol:
+                    g = big          # not (space < g)  <=>  space >= g
+                elif big == 'pdu_space_available' and op == '<=' and pol:
+                    g = small        # g <= space
             if g is None:
                 continue
             if g == amount:
@@ -432,8 +438,9 @@ def mtu_agreement(ctx):
     ok = announced is not None and len(upd) == 1 and min_args(srv, upd[0].args[0]) == {announced, f'{req}.client_rx_mtu'}
     R.check(ok, rule, 'bumble.gatt_server.Server.on_att_exchange_mtu_request | final MTU', f'min({announced}, {req}.client_rx_mtu): the value announced in the response and the client\'s',
             f'the server adopts {sorted(min_args(srv, upd[0].args[0])) if upd else "?"} as ATT_MTU, not min(announced {announced}, client_rx_mtu): its responses and notifications can exceed the MTU the client computed', p.loc(srv))
-    g = [norm(t) for c in upd for t, pol in paths.flat_guards(c) if pol]
-    R.check(g == [f'{req}.client_rx_mtu >= att.ATT_DEFAULT_MTU'], rule, 'bumble.gatt_server.Server.on_att_exchange_mtu_request | lower bound', 'values below the default MTU are ignored', 'the lower bound on client_rx_mtu changed', p.loc(srv))
+    from ..sym import ineq, same_ineq
+    g = [ineq(t, pol) for c in upd for t, pol in paths.flat_guards(c)]
+    R.check(len(g) == 1 and same_ineq(g[0], ineq(f'{req}.client_rx_mtu >= att.ATT_DEFAULT_MTU')), rule, 'bumble.gatt_server.Server.on_att_exchange_mtu_request | lower bound', 'values below the default MTU are ignored', 'the lower bound on client_rx_mtu changed', p.loc(srv))
     # client
     rq = next((c for c in calls_in(cli) if (dotted(c.func) or '').endswith('ATT_Exchange_MTU_Request')), None)
     sent = norm(kwarg(rq, 'client_rx_mtu', 0)) if rq is not None else None
